@@ -527,7 +527,10 @@ func (e *scriptEnv) stepRedeploy() {
 	// An idle operator (nothing batched, nobody parked in alignment, no background task) may also be deployed
 	// again IN PLACE: the job does that with a member that stays registered while another member is replaced.
 	// (With a pending batch or an in-flight checkpoint the known finding in-place-redeploy applies.)
-	if len(e.model.Pending) == 0 && len(e.blocked) == 0 && e.r.Intn(3) == 0 {
+	// (Plain builds only: HandleDeploy replaces the operator's stores under its own mutex while the event loop
+	// reads them without it — the race detector reports HandleDeploy <-> processEventBatch, which is part of the
+	// known finding in-place-redeploy and not what the race build of this part is looking for.)
+	if len(e.model.Pending) == 0 && len(e.blocked) == 0 && e.r.Intn(3) == 0 && !lib.RaceEnabled {
 		lib.DKVIdle(ophar.Watchdog)
 		e.redeploys++
 		e.logOp("redeploy IN PLACE from checkpoint %d as %s (the same operator object receives HandleDeploy again)", e.lastAck.CheckpointID, e.opID)
